@@ -40,15 +40,15 @@ struct Ctx {
     sum: Summary,
     shards: CoqShards,
     /// Coq evaluation budget per case kind (queue, submit, map, reduce, collector)
-    budget: [usize; 5],
-    used: [usize; 5],
+    budget: [usize; 6],
+    used: [usize; 6],
     rng: Rng,
     thorough: bool,
 }
 
 impl Ctx {
     fn coq(&mut self, kind: u32, a: u64, b: u64, ops: &[i64], obs: &[i64], case: &Value, force: bool) {
-        let k = (kind as usize).min(4);
+        let k = (kind as usize).min(5);
         if !force && self.used[k] >= self.budget[k] { return; }
         self.used[k] += 1;
         let term = format!(
@@ -324,6 +324,68 @@ fn exec_case(cx: &mut Ctx, nw: usize, cap: usize, rt: usize, mode: u64, codes: &
     }
 }
 
+/// One worker, current-thread runtime, tasks that return at once, everything submitted before the worker is
+/// first polled: the execution order is then a function of the code alone (priority order of the local
+/// queue, the periodic balance, the global overflow) and is compared with the model's worker loop.
+struct OrderTask { id: usize, prio: u8, steal: bool, log: Arc<std::sync::Mutex<Vec<usize>>> }
+impl Task for OrderTask {
+    fn execute(self: Box<Self>) -> Pin<Box<dyn Future<Output = ZResult<()>> + Send>> {
+        Box::pin(async move { self.log.lock().unwrap().push(self.id); Ok(()) })
+    }
+    fn priority(&self) -> u8 { self.prio }
+    fn is_stealable(&self) -> bool { self.steal }
+}
+fn order_case(cx: &mut Ctx, cap: usize, codes: &[i64], force: bool) {
+    let cell = "WorkStealingExecutor/worker_loop order (1 worker)";
+    let case = json!({"cell": "order", "kind": 5, "cap": cap, "ops": codes});
+    cx.sum.eval(cell, &format!("o {} {:?}", cap, codes), codes.len() >= 2);
+    let cv: Vec<i64> = codes.iter().map(|c| c % 10000).collect();
+    let n = cv.len();
+    let cv2 = cv.clone();
+    let r = guarded(|| with_rt(0, async move {
+        let log = Arc::new(std::sync::Mutex::new(Vec::new()));
+        let ex = match WorkStealingExecutor::new(1, cap) { Ok(e) => e, Err(_) => return None };
+        let mut accept = vec![];
+        for (i, &c) in cv2.iter().enumerate() {
+            accept.push(ex.submit(Box::new(OrderTask { id: i, prio: code_prio(c), steal: code_steal(c), log: log.clone() })).is_ok());
+        }
+        let want = accept.iter().filter(|&&b| b).count();
+        let t0 = Instant::now();
+        let mut last = 0usize;
+        let mut last_change = Instant::now();
+        loop {
+            let d = log.lock().unwrap().len();
+            if d >= want { break; }
+            if d != last { last = d; last_change = Instant::now(); }
+            if last_change.elapsed() > Duration::from_millis(STALL_MS) || t0.elapsed() > Duration::from_secs(20) { break; }
+            tokio::time::sleep(Duration::from_micros(300)).await;
+        }
+        tokio::time::sleep(Duration::from_millis(1)).await;
+        let order = log.lock().unwrap().clone();
+        let queued = ex.total_queued();
+        let _ = ex.shutdown().await;
+        Some((accept, order, queued))
+    }));
+    match r {
+        Err(p) => cx.sum.fail(cell, None, case, &format!("panicked: {}", p)),
+        Ok(None) => cx.sum.fail(cell, None, case, "executor creation failed"),
+        Ok(Some((accept, order, queued))) => {
+            let mut obs: Vec<i64> = accept.iter().map(|&b| if b { 1 } else { 0 }).collect();
+            obs.push(-7);
+            obs.extend(order.iter().map(|&i| i as i64));
+            obs.push(-7);
+            obs.push(queued as i64);
+            cx.coq(5, cap as u64, 0, &cv, &obs, &case, force);
+            let mut seen = vec![0u32; n];
+            for &i in &order { if i < n { seen[i] += 1; } }
+            let bad: Vec<usize> = (0..n).filter(|&i| (accept[i] && seen[i] != 1) || (!accept[i] && seen[i] != 0)).collect();
+            if !bad.is_empty() {
+                cx.sum.fail(cell, None, case, &format!("tasks {:?} did not run exactly once (execution order {:?}, total_queued = {})", &bad[..bad.len().min(8)], &order[..order.len().min(16)], queued));
+            }
+        }
+    }
+}
+
 // ---------------------------------------------------------------------------------------------
 // ordered collections
 // ---------------------------------------------------------------------------------------------
@@ -564,10 +626,10 @@ fn single_case(cx: &mut Ctx, xs: &[i64]) {
 
 /// N items through k map stages over bounded channels; outputs must be the stage composition in input order,
 /// and a failing item must surface as Err (with only a correct prefix delivered)
-fn stream_case(cx: &mut Ctx, rt: usize, nstages: usize, buffer: usize, xs: &[i64]) {
+fn stream_case(cx: &mut Ctx, rt: usize, nstages: usize, buffer: usize, slow: bool, xs: &[i64]) {
     let cell = "Pipeline::execute_stream";
-    let case = json!({"cell": "stream", "kind": 13, "rt": rt, "stages": nstages, "buffer": buffer, "ops": xs});
-    cx.sum.eval(cell, &format!("st {} {} {} {:?}", rt, nstages, buffer, xs), xs.len() >= 2);
+    let case = json!({"cell": "stream", "kind": 13, "rt": rt, "stages": nstages, "buffer": buffer, "slow": slow, "ops": xs});
+    cx.sum.eval(cell, &format!("st {} {} {} {} {:?}", rt, nstages, buffer, slow, xs), xs.len() >= 2);
     cx.sum.cell_status(cell, "S-only");
     let xv = xs.to_vec();
     let n = xs.len();
@@ -575,8 +637,13 @@ fn stream_case(cx: &mut Ctx, rt: usize, nstages: usize, buffer: usize, xs: &[i64
         tokio::time::timeout(HANG, async move {
             let mut cfg = PipelineConfig::default();
             cfg.buffer_size = buffer;
+            if slow { cfg.stage_timeout = Duration::from_millis(8); }
             let p = Pipeline::new(cfg);
-            let stages: Vec<Box<dyn PipelineStage<i64, i64>>> = (0..nstages).map(|_| Box::new(MapStage::new("s".to_string(), stage)) as Box<dyn PipelineStage<i64, i64>>).collect();
+            let stages: Vec<Box<dyn PipelineStage<i64, i64>>> = (0..nstages).map(|i| if slow && i == 0 {
+                Box::new(SlowStage { batching: false }) as Box<dyn PipelineStage<i64, i64>>
+            } else {
+                Box::new(MapStage::new("s".to_string(), stage)) as Box<dyn PipelineStage<i64, i64>>
+            }).collect();
             let (itx, irx) = tokio::sync::mpsc::channel::<i64>(buffer.max(1));
             let (otx, mut orx) = tokio::sync::mpsc::channel::<i64>(n + 4);
             let feeder = tokio::spawn(async move { for x in xv { if itx.send(x).await.is_err() { break; } } });
@@ -587,14 +654,18 @@ fn stream_case(cx: &mut Ctx, rt: usize, nstages: usize, buffer: usize, xs: &[i64
             (res.is_ok(), outs)
         }).await
     }));
-    // expected: composition of the stage, item by item
+    // expected: composition of the stages, item by item (the first stage times out on x = 7 mod 32 when slow)
+    let through = |x: i64| -> Option<i64> {
+        let mut v = x;
+        for s in 0..nstages {
+            if slow && s == 0 && v.rem_euclid(32) == 7 { return None; }
+            match stage(v) { Ok(y) => v = y, Err(_) => return None }
+        }
+        Some(v)
+    };
     let mut want: Vec<i64> = vec![];
     let mut all_ok = true;
-    'outer: for &x in xs {
-        let mut v = x;
-        for _ in 0..nstages { match stage(v) { Ok(y) => v = y, Err(_) => { all_ok = false; break 'outer; } } }
-        want.push(v);
-    }
+    for &x in xs { match through(x) { Some(v) => want.push(v), None => { all_ok = false; break; } } }
     match r {
         Err(p) => cx.sum.fail(cell, None, case, &format!("panicked: {}", p)),
         Ok(Err(_)) => cx.sum.fail(cell, None, case, "did not return within 8 s"),
@@ -606,7 +677,7 @@ fn stream_case(cx: &mut Ctx, rt: usize, nstages: usize, buffer: usize, xs: &[i64
             } else {
                 // error surfaced: whatever was delivered must be a prefix of the correct output (possibly longer than `want`,
                 // which stops at the first failing item only in input order - items before it are all there is)
-                let full: Vec<Option<i64>> = xs.iter().map(|&x| { let mut v = x; for _ in 0..nstages { match stage(v) { Ok(y) => v = y, Err(_) => return None } } Some(v) }).collect();
+                let full: Vec<Option<i64>> = xs.iter().map(|&x| through(x)).collect();
                 let ok_prefix = outs.len() <= want.len() && outs[..] == want[..outs.len()];
                 if !ok_prefix { cx.sum.fail(cell, None, case, &format!("error surfaced but delivered {:?} is not a prefix of {:?} (per item {:?})", outs, want, full)); }
             }
@@ -651,9 +722,10 @@ fn collector_case(cx: &mut Ctx, maxb: usize, timeout_zero: bool, ops: &[i64], fo
                 cx.sum.fail(cell, None, case, &format!("batches {:?} + remainder {:?} are not the added items {:?} in order", batches, tail, added));
             } else if rest != tail.len() {
                 cx.sum.fail(cell, None, case, &format!("len() = {} but the final flush returned {} items", rest, tail.len()));
-            } else if maxb >= 1 && batches.iter().any(|(o, b)| (*o >= 1000 && b.len() != maxb) || b.len() > maxb || b.is_empty()) {
-                cx.sum.fail(cell, None, case, &format!("batch sizes {:?} with max_batch_size {}", batches.iter().map(|(_, b)| b.len()).collect::<Vec<_>>(), maxb));
+            } else if batches.iter().any(|(_, b)| b.is_empty()) {
+                cx.sum.fail(cell, None, case, "an empty batch was emitted");
             }
+            // (batch sizes are compared through the model only: the property does not fix them)
         }
     }
 }
@@ -744,12 +816,16 @@ fn run_one(cx: &mut Ctx, c: &Value) {
             let ops: Vec<i64> = ops.into_iter().filter(|&o| is_task_code(o)).collect();
             exec_case(cx, u(&c["nw"], 1).max(1) as usize, u(&c["cap"], 8) as usize, u(&c["rt"], 0) as usize, u(&c["mode"], 0), &ops, true)
         }
+        "order" => {
+            let ops: Vec<i64> = ops.into_iter().filter(|&o| is_task_code(o)).collect();
+            order_case(cx, u(&c["cap"], 8) as usize, &ops, true)
+        }
         "pmap" => pmap_case(cx, u(&c["which"], 0).min(3), u(&c["rt"], 0) as usize, u(&c["max_fibers"], 4).max(1) as usize, &ops, c["panics"].as_bool().unwrap_or(false), true),
         "foreach" => foreach_case(cx, u(&c["rt"], 0) as usize, u(&c["max_fibers"], 4).max(1) as usize, &ops),
         "reduce" => reduce_case(cx, u(&c["which"], 0).min(1), u(&c["rt"], 0) as usize, u(&c["mw"], 2).max(1) as usize, &ops, true),
         "process_batch" => batch_case(cx, u(&c["which"], 0).min(4), c["batching"].as_bool().unwrap_or(false), &ops, true),
         "single" => single_case(cx, &ops),
-        "stream" => stream_case(cx, u(&c["rt"], 0) as usize, u(&c["stages"], 1).max(1) as usize, u(&c["buffer"], 1).max(1) as usize, &ops),
+        "stream" => stream_case(cx, u(&c["rt"], 0) as usize, u(&c["stages"], 1).max(1) as usize, u(&c["buffer"], 1).max(1) as usize, c["slow"].as_bool().unwrap_or(false), &ops),
         "collector" => {
             let ops: Vec<i64> = ops.into_iter().filter(|&o| o >= 1000 || o == 1 || o == 2).collect();
             collector_case(cx, u(&c["maxb"], 2) as usize, c["tz"].as_bool().unwrap_or(false), &ops, true)
@@ -782,13 +858,14 @@ pub fn run(args: &Args) {
     let mut cx = Ctx {
         sum: Summary::new("C18", "corpus; all WorkStealingQueue histories of <= 6 operations over push(prio 0/1, stealable or not)/pop_local/steal/balance + random histories around the capacity; the running executor with 1, 2, 3, 4 workers on current-thread and multi-thread runtimes, task counts around workers*capacity, around the global overflow and around the balance trigger (100 executed), mixed priorities/stealability/task behaviour, workers idle or not when the tasks arrive; parallel_map/for_each/reduce, process_batch, execute_stream, BatchCollector and the yield/aio helpers on vectors of length 0..40 with and without failing, panicking and timed-out items, concurrency limits around the input length. A case is non-trivial when it has >= 2 tasks/items (queue histories: >= 2 pushes and a steal or balance); distinct = distinct canonical case text"),
         shards: CoqShards::new(&header(), 300),
-        budget: if args.thorough { [6000, 600, 1500, 1500, 1500] } else { [700, 80, 220, 180, 180] },
-        used: [0; 5],
+        budget: if args.thorough { [6000, 600, 1500, 1500, 1500, 600] } else { [650, 70, 200, 160, 160, 60] },
+        used: [0; 6],
         rng: Rng::new(args.seed),
         thorough: args.thorough,
     };
     for c in ["WorkStealingQueue", "WorkStealingExecutor::submit", "FiberPool::parallel_map", "concurrency::parallel_map", "concurrency::join_all",
-              "FiberPool::spawn_batch", "FiberPool::parallel_reduce", "Pipeline::process_batch", "BatchCollector"] {
+              "FiberPool::spawn_batch", "FiberPool::parallel_reduce", "Pipeline::process_batch", "BatchCollector",
+              "WorkStealingExecutor/worker_loop order (1 worker)"] {
         cx.sum.cell_status(c, "M+S");
     }
     cx.sum.cell_status("concurrency::parallel_reduce", "S-only");
@@ -900,6 +977,20 @@ pub fn run(args: &Args) {
         }
     }
 
+    // 3e. single-worker execution order against the model's worker loop
+    {
+        let norder = if thorough { 500 } else { 56 };
+        for k in 0..norder {
+            let mut r = cx.rng.clone();
+            let cap = *r.pick(&[0usize, 1, 2, 4, 8, 64, 256]);
+            let n = match k % 4 { 0 => r.range(1, 12) as usize, 1 => cap + r.below(4) as usize, 2 => r.range(95, 130) as usize, _ => r.range(180, 260) as usize };
+            let prio_mix = r.below(4);
+            let codes: Vec<i64> = (0..n.max(1)).map(|_| rand_code(&mut r, prio_mix, false)).collect();
+            cx.rng = r;
+            order_case(&mut cx, cap, &codes, false);
+        }
+    }
+
     // 4. parallel_map / for_each / reduce
     {
         let lens: Vec<usize> = if thorough { (0..=40).collect() } else { vec![0, 1, 2, 3, 4, 5, 7, 8, 9, 16, 33] };
@@ -935,7 +1026,7 @@ pub fn run(args: &Args) {
                 cx.rng = r;
                 for which in 0..3u64 { for &b in &[false, true] { batch_case(&mut cx, which, b, &xs, false); } }
                 for &rt in &[0usize, 2] {
-                    for &(st, buf) in &[(1usize, 1usize), (2, 1), (3, 2), (2, 64)] { stream_case(&mut cx, rt, st, buf, &xs); }
+                    for &(st, buf) in &[(1usize, 1usize), (2, 1), (3, 2), (2, 64)] { stream_case(&mut cx, rt, st, buf, false, &xs); }
                 }
             }
         }
@@ -952,6 +1043,8 @@ pub fn run(args: &Args) {
             batch_case(&mut cx, 3, false, &xs, false);
             batch_case(&mut cx, 4, true, &xs, false);
             batch_case(&mut cx, 4, false, &xs, false);
+            stream_case(&mut cx, 0, 2, 2, true, &xs);
+            stream_case(&mut cx, 2, 1, 1, true, &xs);
         }
         single_case(&mut cx, &[5, 13, 7, 39, -3, 4]);
         // BatchCollector histories
